@@ -215,5 +215,15 @@ theorem ni_stepOp {b : Bag} (h : NI b) (hr : Rect b) (op : Op) (hne : ¬ NameEdi
   | autoAlpha => exact h.congr rfl rfl rfl
   | revcomp =>
     exact h.keys (reverseComplement_keys b) (reverseComplement_fields b).1 (reverseComplement_fields b).2.1
+  | replaceChar name site c =>
+    simp only [Model.stepOp]
+    split
+    · exact h
+    · split
+      · exact h
+      · rename_i r hrr
+        rcases replaceChar_cases hrr with e | ⟨i, e⟩ <;> rw [e]
+        · exact h
+        · exact h.keys (by simp only []; rw [keys_setInRow]) rfl rfl
 
 end Gv.Proofs.BagAbs
